@@ -67,6 +67,12 @@ structure Acc where
   lastPush : Nat := 0
   deriving Repr
 
+/-- the next SEND to be dispatched was handed over after the fence -/
+def Acc.nextIsLate (a : Acc) : Bool :=
+  match a.lateFrom with
+  | some i => decide (i ≤ a.hcnt)
+  | none => false
+
 /-- one step of the per-session acceptor; `.error sig` = the property is violated -/
 def stepS (s : Nat) (a : Acc) : Ev → Except String Acc
   | .sub s' n =>
@@ -78,7 +84,7 @@ def stepS (s : Nat) (a : Acc) : Ev → Except String Acc
     if s' ≠ s then .ok a else
     if a.drainOk then .error "dispatch-after-drain-returned" else
     if a.sent[a.hcnt]? ≠ some n then .error "dispatch-out-of-order" else
-    if (match a.lateFrom with | some i => decide (i ≤ a.hcnt) | none => false) then .error "dispatch-after-fence" else
+    if a.nextIsLate then .error "dispatch-after-fence" else
     .ok { a with hcnt := a.hcnt + 1, kinds := a.kinds ++ [k] }
   | .ack s' n r m noOk =>
     if s' ≠ s then .ok a else
